@@ -215,9 +215,9 @@ theorem collectArgs_call (T : PTables) (mac : MacroDef) (lb rb : Tok) (body : Li
       ∃ A, collectArgs T mac (pre ++ ['A']) n (lb :: (body ++ rb :: rest)) start acc st
         = .ok (({ args := A, extr := acc.extr ++ List.replicate pre.length [] ++ [body],
                   langs := [] }, rest), st) := by
-  have h0 : txtIs lb "*" = false := by simp [txtIs, hlb.txt]
-  have h1 : txtIs lb "[" = false := by simp [txtIs, hlb.txt]
-  have h2 : txtIs lb "}" = false := by simp [txtIs, hlb.txt]
+  have h0 : txtIsNV lb "*" = false := by simp [txtIsNV, hlb.txt]
+  have h1 : txtIsNV lb "[" = false := by simp [txtIsNV, hlb.txt]
+  have h2 : txtIsNV lb "}" = false := by simp [txtIsNV, hlb.txt]
   intro pre
   induction pre with
   | nil =>
@@ -339,8 +339,8 @@ theorem expandMacro_call (T : PTables) (fuel : Nat) (fn lb rb : Tok)
     expandMacro T (fuel + 2) (lb :: (body ++ rb :: rest)) fn false st
       = .ok (([mkAction fn.pos], rest), addFlow st body) := by
   obtain ⟨mac, hmac, hmok⟩ := hfn.decl
-  have hsk : skipSpaceStopLang (lb :: (body ++ rb :: rest)) = lb :: (body ++ rb :: rest) := by
-    simp [skipSpaceStopLang, hlb.notSpace]
+  have hsk : skipSpaceStopLangAct (lb :: (body ++ rb :: rest)) = lb :: (body ++ rb :: rest) := by
+    simp [skipSpaceStopLangAct, hlb.notSpace]
   rw [expandMacro.eq_2]
   show M.bind' M.get _ st = _
   simp only [M.bind', M.get, hmac, hsk]
@@ -404,8 +404,8 @@ theorem seq_skip_step (T : PTables) (fuel : Nat) (fn lb rb : Tok) (body : List T
     expandSequence T (fuel + 3) (fn :: lb :: (body ++ rb :: rest)) envStop out st
       = expandSequence T (fuel + 1) rest envStop (out ++ [mkAction fn.pos]) st := by
   obtain ⟨mac, hmac, hmok⟩ := hfn.decl
-  have hsk : skipSpaceStopLang (lb :: (body ++ rb :: rest)) = lb :: (body ++ rb :: rest) := by
-    simp [skipSpaceStopLang, hlb.notSpace]
+  have hsk : skipSpaceStopLangAct (lb :: (body ++ rb :: rest)) = lb :: (body ++ rb :: rest) := by
+    simp [skipSpaceStopLangAct, hlb.notSpace]
   have hem : expandMacro T (fuel + 2) (lb :: (body ++ rb :: rest)) fn false st
       = .ok (([mkAction fn.pos], rest), st) := by
     rw [expandMacro.eq_2]
